@@ -239,9 +239,19 @@ func c03Tasks(tier string) []Task {
 	if tier == "thorough" {
 		maxD = 4
 	}
+	// two unclean shutdowns in a row: the second one right after the recovered database acknowledged short writes
+	runTwice := func(cfg Cfg, keys []string, ops []Op, res *TaskResult) *Violation {
+		secondDeath = true
+		defer func() { secondDeath = false }()
+		return runC03(cfg, keys, ops, res)
+	}
 	var levels []seqLevel
 	for d := 1; d <= maxD; d++ {
-		levels = append(levels, seqLevel{Name: fmt.Sprintf("len%d", d), Cfgs: c03Cfgs(), Keys: keysAB, Alpha: c03Alphabet, Depth: d, Dev: 3, Run: runC03, MaxViols: 1})
+		run := runC03
+		if tier == "thorough" || d <= 2 {
+			run = runTwice
+		}
+		levels = append(levels, seqLevel{Name: fmt.Sprintf("len%d", d), Cfgs: c03Cfgs(), Keys: keysAB, Alpha: c03Alphabet, Depth: d, Dev: 3, Run: run, MaxViols: 1})
 	}
 	tasks := seqTasks("C03", levels)
 	// block family: cuts within 16 bytes of every block boundary and of both ends of the tail, every 4096th byte
@@ -257,8 +267,8 @@ func c03Tasks(tier string) []Task {
 			off := n % 32768
 			return off <= 16 || off >= 32768-16 || n-from <= 16 || to-n <= 16 || n%4096 == 0
 		}
-		continueAfterCuts = true
-		defer func() { cutFilter, continueAfterCuts = nil, false }()
+		continueAfterCuts, secondDeath = true, true
+		defer func() { cutFilter, continueAfterCuts, secondDeath = nil, false, false }()
 		return runC03(cfg, keys, ops, res)
 	}
 	var bl []seqLevel
@@ -279,7 +289,13 @@ func c03Tasks(tier string) []Task {
 		mcfgs = append(mcfgs, c)
 	}
 	for d := 1; d <= md; d++ {
-		ml = append(ml, seqLevel{Name: fmt.Sprintf("mmap-len%d", d), Cfgs: mcfgs, Keys: keysAB, Alpha: c03Alphabet, Depth: d, Dev: 3, Run: runC03, MaxViols: 1})
+		ml = append(ml, seqLevel{Name: fmt.Sprintf("mmap-len%d", d), Cfgs: mcfgs, Keys: keysAB, Alpha: c03Alphabet, Depth: d, Dev: 3, Run: runTwice, MaxViols: 1})
+	}
+	// block family on the memory-mapped back-end: records of several chunks torn in their 2nd / 3rd chunk
+	mblk := blk
+	mblk.IO = 1
+	for d := 1; d <= bd; d++ {
+		ml = append(ml, seqLevel{Name: fmt.Sprintf("mmap-block-len%d", d), Cfgs: []Cfg{mblk}, Keys: keysAB, Alpha: c03BlockAlphabet, Depth: d, Dev: 3, Run: runBlock, MaxViols: 1})
 	}
 	return append(tasks, seqTasks("C03", ml)...)
 }
